@@ -329,6 +329,66 @@ def gen_tracked_mixed(seed):
     return d.hugr
 
 
+def gen_reuse(seed):
+    """Pre-built builders inserted more than once (insert_nested / insert_cfg / insert_conditional /
+    insert_tail_loop) and used again afterwards: the host and every pre-built HUGR must be valid after each
+    use (a builder that mutates what it is given shows only on the second use)."""
+    import hugr.ops as O
+    import hugr.tys as T
+    import hugr.val as V
+    from hugr.build.cfg import Cfg
+    from hugr.build.cond_loop import Conditional, TailLoop
+    from hugr.build.dfg import Dfg
+    from hugr.std.logic import Not
+    rnd = random.Random(seed)
+    host = Dfg(T.Bool, T.Bool)
+    a, b = host.inputs()
+    kind = rnd.choice(["dfg", "cfg", "conditional", "tail_loop"])
+    times = rnd.randint(2, 3)
+    if kind == "dfg":
+        pre = Dfg(T.Bool)
+        w = pre.inputs()[0]
+        for _ in range(rnd.randint(1, 3)):
+            w = pre.add(Not(w))[0] if rnd.random() < 0.6 else pre.add_op(O.Noop(), w)[0]
+        if rnd.random() < 0.5:
+            with pre.add_nested(w) as inner:
+                inner.set_outputs(inner.add(Not(inner.inputs()[0])))
+            w = inner[0]
+        pre.set_outputs(w)
+        for _ in range(times):
+            a = host.insert_nested(pre, a)[0]
+    elif kind == "cfg":
+        pre = Cfg(T.Bool)
+        with pre.add_entry() as entry:
+            entry.set_block_outputs(entry.inputs()[0])
+        with pre.add_successor(entry[0]) as m1:
+            m1.set_single_succ_outputs(m1.add_op(O.Noop(), m1.load(V.TRUE))[0])
+        with pre.add_successor(entry[1]) as m2:
+            m2.set_single_succ_outputs(m2.load(V.FALSE))
+        pre.branch_exit(m1[0])
+        pre.branch_exit(m2[0])
+        for _ in range(times):
+            a = host.insert_cfg(pre, a)[0]
+    elif kind == "conditional":
+        pre = Conditional(T.Bool, [T.Bool])
+        with pre.add_case(0) as k0:
+            k0.set_outputs(k0.add(Not(k0.inputs()[0])))
+        with pre.add_case(1) as k1:
+            k1.set_outputs(k1.inputs()[0])
+        for _ in range(times):
+            b = host.insert_conditional(pre, a, b)[0]
+    else:
+        pre = TailLoop([T.Bool], [])
+        st = T.Sum([[T.Bool], []])
+        x = pre.inputs()[0]
+        nx = pre.add(Not(x))
+        pre.set_loop_outputs(pre.add(O.Tag(0, st)(nx)))
+        for _ in range(times):
+            host.insert_tail_loop(pre, [a], [])
+    host.set_outputs(a, b)
+    return [host.hugr, pre.hugr]
+
+
 def check(h, wiring_by_construction=False):
     """wiring_by_construction: the program wires every input once and consumes every linear value once by
     construction, so a violation of R5 in the HUGR is the builders' doing, not the program's."""
@@ -357,6 +417,15 @@ def check(h, wiring_by_construction=False):
     return None
 
 
+def check_all(h, wiring_by_construction=False):
+    """a generator may return several HUGRs (the host and the pre-built ones it inserted)"""
+    for x in (h if isinstance(h, list) else [h]):
+        r = check(x, wiring_by_construction)
+        if r is not None:
+            return r
+    return None
+
+
 def main():
     from bounded.c12 import gen_module
     from bounded.hugr_gen import PROGRAMS
@@ -366,7 +435,7 @@ def main():
     runs = 500 if tier == "quick" else 5000
     violations, seen = [], set()
     ev = skipped = nontrivial = 0
-    gens = [("random", gen_program)] + [(n, (lambda s, p=p: p(random.Random(s)))) for n, p in PROGRAMS] + [("module", gen_module), ("risky", gen_risky), ("risky", gen_risky), ("tracked-mixed", gen_tracked_mixed)]
+    gens = [("random", gen_program)] + [(n, (lambda s, p=p: p(random.Random(s)))) for n, p in PROGRAMS] + [("module", gen_module), ("risky", gen_risky), ("risky", gen_risky), ("tracked-mixed", gen_tracked_mixed), ("reuse", gen_reuse)]
     for k in range(runs):
         seed = seed0 * 1000003 + k
         gname, g = gens[0] if k % 3 else gens[1 + (k // 3) % (len(gens) - 1)]
@@ -377,7 +446,7 @@ def main():
             skipped += 1
             continue
         ev += 1
-        r = check(h, wiring_by_construction=gname != "risky")
+        r = check_all(h, wiring_by_construction=gname != "risky")
         if r is None:
             if gname == "random":
                 nontrivial += 1
@@ -394,12 +463,12 @@ def main():
         idx = [n for n, _ in gens].index(gname)
         script = write_replay_script("C01", f"bounded_{len(violations)}", f"{gname} program, seed {seed} ({where} HUGR): {why}"[:700], f"""
 import random
-from bounded.c01 import gen_program, gen_risky, gen_tracked_mixed, check
+from bounded.c01 import gen_program, gen_risky, gen_tracked_mixed, gen_reuse, check, check_all
 from bounded.c12 import gen_module
 from bounded.hugr_gen import PROGRAMS
-gens = [("random", gen_program)] + [(n, (lambda s, p=p: p(random.Random(s)))) for n, p in PROGRAMS] + [("module", gen_module), ("risky", gen_risky), ("risky", gen_risky), ("tracked-mixed", gen_tracked_mixed)]
+gens = [("random", gen_program)] + [(n, (lambda s, p=p: p(random.Random(s)))) for n, p in PROGRAMS] + [("module", gen_module), ("risky", gen_risky), ("risky", gen_risky), ("tracked-mixed", gen_tracked_mixed), ("reuse", gen_reuse)]
 h = gens[{idx}][1]({seed})
-r = check(h, wiring_by_construction=gens[{idx}][0] != "risky")
+r = check_all(h, wiring_by_construction=gens[{idx}][0] != "risky")
 print("result:", r)
 sys.exit(1 if r is not None and r[0] != "domain" else 0)
 """)
